@@ -201,7 +201,8 @@ dLUMemInit(fact_t fact, void *work, int_t lwork, int m, int n, int_t annz,
     double   *ucol;
     int_t    *usub, *xusub;
     int_t    nzlmax, nzumax, nzlumax;
-    
+    int_t    top1_init = 0, used_init = 0; /* user stack after the pointer arrays */
+
     iword     = sizeof(int);
     dword     = sizeof(double);
     Glu->n    = n;
@@ -242,6 +243,14 @@ dLUMemInit(fact_t fact, void *work, int_t lwork, int m, int n, int_t annz,
 	    xlsub  = duser_malloc((n+1) * iword, HEAD, Glu);
 	    xlusup = duser_malloc((n+1) * iword, HEAD, Glu);
 	    xusub  = duser_malloc((n+1) * iword, HEAD, Glu);
+	    if ( !xsup || !supno || !xlsub || !xlusup || !xusub ) {
+		/* The workspace cannot even hold the pointer arrays. */
+		SUPERLU_FREE(Glu->expanders);
+		Glu->expanders = NULL;
+		return (dmemory_usage(nzlmax, nzumax, nzlumax, n) + n);
+	    }
+	    top1_init = Glu->stack.top1;
+	    used_init = Glu->stack.used;
 	}
 
 	lusup = (double *) dexpand( &nzlumax, LUSUP, 0, 0, Glu );
@@ -256,8 +265,11 @@ dLUMemInit(fact_t fact, void *work, int_t lwork, int m, int n, int_t annz,
 		SUPERLU_FREE(lsub); 
 		SUPERLU_FREE(usub);
 	    } else {
-		duser_free((nzlumax+nzumax)*dword+(nzlmax+nzumax)*iword,
-                            HEAD, Glu);
+		/* Some of the four requests may have failed, and alignment
+		   padding may have been added: roll the stack back to where
+		   it was instead of subtracting the full request. */
+		Glu->stack.top1 = top1_init;
+		Glu->stack.used = used_init;
 	    }
 	    nzlumax /= 2;
 	    nzumax /= 2;
@@ -574,6 +586,10 @@ void
 		    new_len = alpha * *prev_len;
 		    extra = (new_len - *prev_len) * lword;	    
 		}
+		/* The space left does not allow any growth: report the failure
+		   instead of "succeeding" with the same length, which made the
+		   callers' while ( new_next > maxlen ) loops spin forever. */
+		if ( new_len <= *prev_len ) return (NULL);
 	    }
 
 	      /* Need to expand the memory: moving the content after the current MemType
